@@ -34,8 +34,14 @@ def handleOp (r : Req) : R String := do
     let ck ← key (p := p) r
     let f ← asFes (← need r "p")
     let α ← asFe (← need r "alpha")
-    let o := SKZG.Time.open ck f α
-    pure <| okReply [("c", vFe (SKZG.Time.commit ck f)), ("v", vFe o.1), ("pi", vFe o.2)]
+    -- `commit` then `open`, as the harness calls them; either aborts on an oversize polynomial (D24)
+    let res : Except Err (Fp p × Fp p × Fp p) :=
+      match SKZG.Time.commit ck f with
+      | .error e => .error e
+      | .ok c => match SKZG.Time.open ck f α with
+        | .error e => .error e
+        | .ok o => .ok (c, o.1, o.2)
+    pure <| exceptReply res fun (c, v, π) => [("c", vFe c), ("v", vFe v), ("pi", vFe π)]
   | "c14.space_open" =>
     let ck ← key (p := p) r
     let f ← asFes (← need r "p")
@@ -64,14 +70,18 @@ def handleOp (r : Req) : R String := do
     let fs ← asFess (← need r "polys")
     let pts ← asFes (← need r "pts")
     let η ← asFe (← need r "eta")
-    let res : Except Err (Fp p × List (Fp p)) :=
-      match SKZG.Time.batchOpenMultiPoints ck fs pts η with
+    -- `batch_commit`, `batch_open_multi_points`, then `open_multi_points` per polynomial, as the
+    -- harness calls them; each aborts on an oversize polynomial (D24)
+    let res : Except Err (Fp p × List (Fp p) × List (Fp p)) :=
+      match SKZG.Time.batchCommit ck fs with
       | .error e => .error e
-      | .ok π => match Fold.mapExcept (fun f => SKZG.Time.openMultiPoints ck f pts) fs with
+      | .ok cs => match SKZG.Time.batchOpenMultiPoints ck fs pts η with
         | .error e => .error e
-        | .ok πs => .ok (π, πs)
-    pure <| exceptReply res fun (π, πs) =>
-      [("pi", vFe π), ("pis", vFes πs), ("cs", vFes (SKZG.Time.batchCommit ck fs))]
+        | .ok π => match Fold.mapExcept (fun f => SKZG.Time.openMultiPoints ck f pts) fs with
+          | .error e => .error e
+          | .ok πs => .ok (π, πs, cs)
+    pure <| exceptReply res fun (π, πs, cs) =>
+      [("pi", vFe π), ("pis", vFes πs), ("cs", vFes cs)]
   | "c14.space_multi" =>
     let ck ← key (p := p) r
     let f ← asFes (← need r "p")
